@@ -85,7 +85,7 @@ class CounterWrite:
         return f"<{self.name} {self.op} @{self.site.loc}>"
 
 
-def self_field_path(F, body, pl, adt):
+def self_field_path(F, body, pl, adt, depth=0):
     """If the place designates a field (path) of the writer `adt` (through `self`, a `&mut self` alias or a captured
     `self`), return the tuple of field names below the writer, else None."""
     cp = A.canon_place(body, pl)
@@ -93,6 +93,17 @@ def self_field_path(F, body, pl, adt):
     for i, (owner, name) in enumerate(fs):
         if owner == adt:
             return tuple(n for _, n in fs[i:])
+    # edition-2024 closures capture disjoint fields: `*(_1.k)` where upvar k = `&mut self.field` in the parent
+    if cp["l"] == 1 and body.kind in A.NESTED_KINDS and cp["p"] and depth < 6:
+        e = cp["p"][0]
+        if isinstance(e, dict) and "f" in e and e["o"].startswith("{upvar}"):
+            parent, ups = A.closure_upvar_operands(F, body)
+            if parent is not None and e["f"] in ups:
+                src = op_place(ups[e["f"]])
+                if src is not None:
+                    rest = list(cp["p"][1:])
+                    new = {"l": src["l"], "p": list(src["p"]) + rest}
+                    return self_field_path(F, parent, new, adt, depth + 1)
     return None
 
 
@@ -260,11 +271,7 @@ def retry_guard(F, body, site):
                 continue
         else:
             continue
-        sl = A.slice_back(body, [k])
-        cls = [rv["def"] for _, rv in sl.aggs if rv.get("agg") == "closure"]
-        if len(cls) != 1:
-            continue
-        kb = F.body(cls[0])
+        kb = A.closure_of_operand(F, body, k)
         if kb is None:
             continue
         rows = predicate_table(F, kb)
@@ -301,3 +308,72 @@ def is_plain_left_positive(kb):
     if left_positive(atom, "true") is not True:
         return False
     return not any("StepError" in t for t in kb.locals)
+
+
+LEAF_ORDER = ["event::Step", "event::Hook", "event::Scenario", "event::Rule", "event::Feature", "event::Cucumber",
+              "std::result::Result"]
+
+
+def leaf(ctx):
+    """Most specific event ADT constrained at a site: (short adt, 'V1+V2')."""
+    for adt in LEAF_ORDER:
+        if adt in ctx:
+            if adt == "std::result::Result" and ctx[adt] != frozenset(["Err"]):
+                continue
+            if adt == "event::Cucumber" and ctx[adt] == frozenset(["Feature"]):
+                continue
+            return adt.rsplit("::", 1)[-1], "+".join(sorted(ctx[adt]))
+    return None, None
+
+
+def check_counter_table(F, R, adt, table, counters):
+    """C12.R1 / C14.R3: the observed set of (counter, op, leaf variant, retry polarity) must equal `table`;
+    step-level counters must see Background+Step and Rule+Scenario routes; no extra condition on a write."""
+    root, bodies = handler_bodies(F, adt)
+    ws = [w for w in counter_writes(F, adt, bodies) if w.name in counters]
+    seen = set()
+    for w in ws:
+        ctx = context(F, w.body, w.site, bodies, root)
+        ladt, lvar = leaf(ctx)
+        rg = retry_guard(F, w.body, w.site)
+        pol = rg[0] if rg else None
+        sig = (w.name, w.op, ladt, lvar, pol)
+        inst = f"{w.name}{w.op}@{ladt}::{lvar}" + (f"/{pol}" if pol else "")
+        for k, v in ctx.items():
+            if k.endswith("::Indicator"):
+                inst += f"[{'+'.join(sorted(v))}]"
+        if sig not in table:
+            R.violation(f"unexpected/{inst}", w.site, f"counter `{w.name}` is changed ({w.op}) under {ladt}::{lvar}"
+                        f"{' on the ' + pol + ' edge' if pol else ''}: not in the counter <-> event table")
+            continue
+        seen.add(sig)
+        if ladt == "Step":
+            sc = ctx.get("event::Scenario", frozenset())
+            R.check(sc == frozenset(["Background", "Step"]), f"routes/{inst}/bg+step", w.site, "counts background and regular steps",
+                    f"`{w.name}` counts only {sorted(sc)} step events")
+        if ladt in ("Step", "Hook", "Scenario"):
+            fe = ctx.get("event::Feature", frozenset())
+            R.check(fe == frozenset(["Rule", "Scenario"]), f"routes/{inst}/rule+feature", w.site, "counts rule-level and feature-level scenarios",
+                    f"`{w.name}` counts only scenarios reached via Feature::{sorted(fe)}")
+        extra = []
+        for g in A.guards_of(w.body, w.site):
+            d = g.cond_def()
+            if d is None or d[0] in ("discr", "multi"):
+                continue
+            if rg and d[0] == "call" and callee_is(d[2], r"Option::<.*>::(is_some|is_none|is_some_and)$") and pol:
+                sl = A.slice_back(w.body, [d[2]["args"][0]])
+                if sl.has_call(r"Option::<.*>::filter$") or callee_is(d[2], r"is_some_and$"):
+                    continue
+            atom = A.describe_operand(w.body, g.term["discr"])
+            if any(re.search(rx, atom) for rx in table[sig]):
+                continue
+            extra.append(atom)
+        R.check(not extra, f"unconditional/{inst}", w.site, "no extra condition on the write",
+                f"`{w.name}` {w.op} under {ladt}::{lvar} is additionally conditioned on {extra}")
+        R.ok(f"table/{inst}", w.site, "in table")
+    for sig in table:
+        if sig not in seen:
+            name, op, ladt, lvar, pol = sig
+            R.violation(f"missing/{name}{op}@{ladt}::{lvar}" + (f"/{pol}" if pol else ""), root,
+                        f"no write `{name}` {op} under {ladt}::{lvar}{' (' + pol + ')' if pol else ''}: those events are no longer counted")
+    return root, bodies, ws
